@@ -13,12 +13,12 @@ import (
 )
 
 var serveExplain = map[string]string{
-	"C02": "Structural necessary conditions in the server's per-connection loop, decided for every path of the loop by exhaustive exploration of a finite abstraction (booleans, nil-ness, rule event bits): (R1) a request with 'Expect: 100-continue' whose body was not read (ExpectHandler / ContinueHandler rejection) is answered with Connection: close and never followed by another iteration; (R2) on every path from the handler to the next iteration the code has established, on the request that was actually served (not on a ctx swapped in by the timeout path), that there is no connection-backed body stream or that requestStream.fullyRead() is true - otherwise the close decision is true; the stream object is only released after that. (R3) a length-limited reader over the connection that is handed to a parser which may stop early (multipart pre-parse) is drained before success is reported; (R4) the flag behind fullyRead() for chunked bodies is raised only after the trailer section was read and its error examined, in every function that sets it; (R-pool) the pooled stream object starts clean: each of its fields (chunk remainder, byte count, end-of-body flag, declared length ...) is assigned on every path of its release or of its acquire function, so a body is never decoded with the leftovers of another connection's body. (R-uar) after a call that gives the request stream held in a field back to its pool (releaseRequestStream, or a routine that passes the value on to it) no path reaches a use of a stream taken from that field before the field is assigned again - 'was the body read to its end' must be asked before the release. (R5) the serve loop gives the connection reader back between requests only on paths that found StreamRequestBody false or an error - a body stream reads the rest of the body through that reader. Not decided: the exact byte offset at which the next request starts for all inputs.",
+	"C02": "Structural necessary conditions in the server's per-connection loop, decided for every path of the loop by exhaustive exploration of a finite abstraction (booleans, nil-ness, rule event bits): (R1) a request with 'Expect: 100-continue' whose body was not read (ExpectHandler / ContinueHandler rejection) is answered with Connection: close and never followed by another iteration; (R2) on every path from the handler to the next iteration the code has established, on the request that was actually served (not on a ctx swapped in by the timeout path), that there is no connection-backed body stream or that requestStream.fullyRead() is true - otherwise the close decision is true; the stream object is only released after that. (R3) a length-limited reader over the connection that is handed to a parser which may stop early (multipart pre-parse) is drained before success is reported; (R4) the flag behind fullyRead() for chunked bodies is raised only after the trailer section was read and its error examined, in every function that sets it; (R-pool) the pooled stream object starts clean: each of its fields (chunk remainder, byte count, end-of-body flag, declared length ...) is assigned on every path of its release or of its acquire function, so a body is never decoded with the leftovers of another connection's body. (R-uar) after a call that gives the request stream held in a field back to its pool (releaseRequestStream, or a routine that passes the value on to it) no path reaches a use of a stream taken from that field before the field is assigned again - 'was the body read to its end' must be asked before the release. (R5) the serve loop gives the connection reader back between requests only on paths that found StreamRequestBody false or an error - a body stream reads the rest of the body through that reader. (R6) no method of the request stream asks the live header for the body length - the length recorded at creation frames the body; (R4c) the end-of-body flag is not reachable from the branch that found the trailer reader's error non-nil (io.EOF included); (R-own) a request stream met outside its Request (a response body that echoes it, the compressing wrapper) is released only under a test that found it not request-owned; (R7) the branch 'handler timed out while it owned the streamed body' leaves the reader variable nil, so the reader is not recycled while the abandoned handler reads through it; (R8) a routine that moves its Request parameter's body into a private copy records bodyStreamUnread on that parameter. Not decided: the exact byte offset at which the next request starts for all inputs.",
 	"C10": "Structural necessary conditions of the keep-alive decision in the serve loop: (R1) the condition guarding SetConnectionClose depends (through phis, && / ||, and helper functions) on each documented source: DisableKeepalive, request and response Connection: close, MaxRequestsPerConn, CloseOnShutdown+stop, Expect/Continue rejection, unread streamed body; (R2) on every path: decision true => Connection: close is set on the response object that is written and no further iteration follows; decision false on a non-HTTP/1.1 request => Connection: keep-alive is set; (R2d) the loop is left after a written response, on the server's own decision, only when that response carried Connection: close; (R3) the decision does not read per-request bookkeeping from a ctx that was swapped in after the handler (timeout path); (R4) every comparison of a header value with the 'close' token - in the request and response head parsers and in the header setters - is made by a case-insensitive, list-aware matcher, never by an exact byte comparison, so 'Connection: Close' and 'keep-alive, close' count as close on both the server and the client side, and while a head is parsed a store to the close flag can only raise it (several Connection lines form one list); (R5) in the client transport the decision to pool a connection whose body is handed out as a stream is taken from a value computed when the response arrived - the boolean captured by the stream-close callback depends on the response's Connection: close - and not only from the caller-owned response header as it looks when the stream is closed. (R6) every routine the list scanner uses to trim a list member compares bytes with both optional-whitespace characters, SP and HTAB. (R7) the close flag is assigned false only where, on every path to the return, the stored Connection entries are removed too (delAllArgs on the Connection name, or the reset of the whole list) - a setter of some other header cannot take back a close decision. Not decided: what the matcher accepts as token separators, client side reuse beyond the parsed flag.",
 	"C11": "Structural necessary conditions of 'no state leaks between requests': (E7) every leaf field of Request, Response, RequestHeader, ResponseHeader, URI, Args, Cookie and RequestCtx is assigned (or known nil, or reset through its pointee) on every path of the type's reset method including callees, or is in a table of reasoned exemptions (scratch buffers, configuration, self pointers) - a newly added field is a violation until reset or exempted; (R-loop) every variable of the serve loop that survives an iteration is re-assigned before it is read in a later iteration on every path, or the loop provably ends; (R-reset) every path from the handler to the next iteration passes Request.Reset and Response.Reset; (R-ctx) every field of RequestCtx that a handler can set through an exported method and that the serve loop reads (hijack handler, no-response switch, timeout response) is cleared, found zero, or left behind with a replaced ctx on every path to the next request - neither Request.Reset nor Response.Reset touches them; (R-loop-owned, R-pool, R-scratch) the reasons given for exemptions are checked too: a field the serve loop owns is assigned by it before every handler dispatch, every field of a pooled helper object is assigned by its release or its acquire function, and no function uses the old content or length of a scratch buffer. (R-slot) a recycled entry of a key/value array (query args, cookies - the arrays are only truncated by Reset) has its key and value stored before it is kept, directly or by a scanner whose producing returns store them on every path. Not decided: that getters return exactly what the current request sent.",
 	"C14": "The sequence of ConnState values the serve loop reports, decided on every path of the loop as an automaton: StateActive only follows New/Idle, StateIdle only follows Active, the handler and the response write happen in Active, an iteration that continues ends in Idle, and StateActive is only reported on a path on which a read of at least one byte succeeded; (R3) every function that runs the serve loop itself and reports states (ServeConn) reports StateNew before serving and, on every path to its return after StateNew was reported (served or turned away), exactly one terminal state - StateHijacked exactly when the loop returned errHijacked, StateClosed otherwise. (R4) at every call of the ConnState hook the connection argument is the enclosing function's own parameter, or a value taken out of it only through embedded fields that are assigned solely while their owner is private (so it is one stable value for the connection's life): all reports for one connection carry one value. (R5) a pooled per-IP connection wrapper is returned to its pool only by a routine that is not one of its own methods, and every call of that routine is dominated by a report of StateClosed for the same value - the hook knows a connection by its value, which must not be reused before its previous life was reported closed. Not decided: the reports made by the worker pool (C13.R2 decides its terminal action) and cross-goroutine ordering.",
 	"C15": "Structural necessary conditions of graceful shutdown inside the serve loop, on every path: the per-connection idle marker is zero while the handler runs (so Shutdown's idle closer cannot close a busy connection), it is set non-zero after the response before the connection waits for the next request, the stop flag is tested after every response, and (R5) a response that was written into the connection writer is flushed before the writer is dropped whenever the serve function ends with a nil result (shutdown, client stopped sending) - so no answered request loses its response on a graceful end; (R6) in the shutdown code the Done channel is closed only under a false 'already closed' flag and the flag is raised after it, and wherever the channel reference is dropped the flag is lowered again on every path - otherwise the next Serve/Shutdown cycle of the same Server never closes its requests' Done channels; (E1) the open-connection counter Shutdown waits on is exact: ServeConn, serveConnCounted, serveConnCleanup and Serve each have the net effect on it that their contract states, on every path - a connection that is counted down twice lets Shutdown return nil while a handler is still running. (R7) ShutdownWithContext takes Server.mu before any of its returns (the listener list and the Done bookkeeping are touched under it). (R8) the idle marker is set only on paths on which the connection writer holds no unflushed response (a connection with a buffered response has its next pipelined request waiting and is not idle; R4 accepts the skipped marker on exactly those paths). (R9) every path of ShutdownWithContext to a return that is not the context's error - from its entry, not only from the drain loop - tested the Server.open counter itself against zero: not a view of it corrected by the number of running Serve calls, which is zero while Serve still accepts, and not 'there are no listeners', which says nothing about connections handed to ServeConn. Not decided: the rest of Shutdown's poll loop and listener handling, liveness, interleavings.",
-	"C16": "Structural necessary conditions for timed-out handlers, on every path of the serve loop's timeoutResponse != nil branch: the response is written from a freshly acquired ctx into which the stored response was copied (R1); the timed-out ctx is never released to the pool by the loop (R2); no per-request field the loop stored on the old ctx is read from the fresh one (R3); (R6) the concurrency slot a timeout wrapper takes from Server.concurrencyCh is taken without blocking (429 otherwise), and it is given back only by code that has run the wrapped handler to its end - in the goroutine that calls it, after the call - exactly once; never by the wrapper's own frame, which returns when the timeout fires while the handler still runs; the semaphore field is read only by code that creates the channel when it is missing (a nil channel would turn every call into a 429); (R7) every bookkeeping field the serve function keeps on the ctx (connection id, connection time, request number, request time) is assigned on every path from each point where the ctx object is acquired or replaced to the handler dispatch, so requests served after a timed-out one see them. (R8) no exported RequestCtx method writes to the connection (acquireWriter, or Write on the ctx's conn, through module callees) unless it does so under the ctx's timeout lock after having found timeoutResponse nil, and the timeout response is installed under that same lock - a timed-out handler keeps using its ctx, and after the timeout only the serve loop may write; Not decided: what the late handler does with the old ctx, scheduling.",
+	"C16": "Structural necessary conditions for timed-out handlers, on every path of the serve loop's timeoutResponse != nil branch: the response is written from a freshly acquired ctx into which the stored response was copied (R1); the timed-out ctx is never released to the pool by the loop (R2); no per-request field the loop stored on the old ctx is read from the fresh one (R3); (R6) the concurrency slot a timeout wrapper takes from Server.concurrencyCh is taken without blocking (429 otherwise), and it is given back only by code that has run the wrapped handler to its end - in the goroutine that calls it, after the call - exactly once; never by the wrapper's own frame, which returns when the timeout fires while the handler still runs; the semaphore field is read only by code that creates the channel when it is missing (a nil channel would turn every call into a 429); (R7) every bookkeeping field the serve function keeps on the ctx (connection id, connection time, request number, request time) is assigned on every path from each point where the ctx object is acquired or replaced to the handler dispatch, so requests served after a timed-out one see them. (R8) no exported RequestCtx method writes to the connection (acquireWriter, or Write on the ctx's conn, through module callees) unless it does so under the ctx's timeout lock after having found timeoutResponse nil, and the timeout response is installed under that same lock - a timed-out handler keeps using its ctx, and after the timeout only the serve loop may write; (R9) initTimer, which re-arms the pooled timer of the timeout wrappers on every request, contains no explicit panic (Reset may report a just-stopped timer as active). Not decided: what the late handler does with the old ctx, scheduling.",
 	"C17": "Structural necessary conditions of connection hijacking, on every path: the response is written and flushed before the hand-off unless HijackSetNoResponse is in effect (R1); after 'go hijackConnHandler' the serve function performs no I/O on the connection and releases neither ctx nor the handed-over reader (R3); it returns errHijacked exactly on hand-off paths (R4); hijackConnHandler closes the connection after the user's handler unless KeepHijackedConns and releases the ctx (R5); hijack state a handler put on the ctx without hijacking does not survive into a later request of the connection (R6); every method of the connection wrapper handed to the hijack handler takes data off the connection only through the buffered reader that still holds what the client sent with the hijacking request, never from the raw connection (R7); hijackConnHandler does not recycle the ctx while a connection the handler kept (KeepHijackedConns) still reads through it, which is the case under ReduceMemoryUsage, where the buffered reader reads through a field of the ctx (R8). (R9) every path into the hijack hand-off passes an unconditional SetDeadline(zero) on the connection after any deadline the serve function armed - per-request timeouts make every configuration test of 'is a deadline pending' wrong. (R10) from a report of StateHijacked for a connection value no path leads, before that variable receives its next connection, to a routine that returns a connection wrapper to its pool with the same value (ServeConn, the worker loop). Not decided: byte-exact hand-over of buffered data, callers' reaction to errHijacked.",
 }
 
@@ -50,6 +50,7 @@ func init() {
 				timeoutProducerRule(p, r, "C16")
 				timeoutSemaphoreRule(p, r)
 				handlerCannotWriteConn(p, r)
+				timerReuseCannotPanic(p, r, "R9")
 			}
 			if id == "C14" {
 				connStateCallersRule(p, r)
@@ -75,6 +76,11 @@ func init() {
 				pooledHelperRule(p, r, "requestStream")
 				streamNotUsedAfterRelease(p, r)
 				readerReleaseRule(p, r, "C02")
+				streamFramedBySnapshot(p, r)
+				trailerErrorEndsTheBody(p, r)
+				streamReleasedByItsOwner(p, r)
+				orphanedReaderNotRecycled(p, r)
+				movedStreamMarkedUnread(p, r)
 			}
 		}})
 	}
@@ -3045,4 +3051,293 @@ func requestDeadlineNotInherited(p *Prog, r *Report) {
 	r.Counts["R-deadline arrivals at the head read"] = n
 	r.Check("R-deadline", "serve loop: a read deadline armed for one request does not stay armed when the next request's head is read", bad == 0, p.Pos(pos),
 		fmt.Sprintf("%d of %d explored arrivals at the head read still carry the deadline the previous request's RequestConfig.ReadTimeout armed: no SetReadDeadline lies between - with no ReadTimeout/IdleTimeout configured the next request, whatever its own configuration, is cut off when its predecessor's deadline expires", bad, n), wit...)
+}
+
+// ---- rules for the defects the round-11 audit found (each reported on the revert of its repair) ----
+
+// streamFramedBySnapshot (C02.R6): a request body stream decides where the body ends from the length recorded when
+// the stream was created (fullyRead uses it, and the serve loop's keep-alive decision relies on fullyRead). No
+// method of requestStream asks the message header for the length: the header belongs to the handler, which may
+// change it before it reads the body, and Read would then run past the framed body into the next request.
+func streamFramedBySnapshot(p *Prog, r *Report) {
+	n, bad := 0, 0
+	var pos token.Pos
+	var where string
+	for _, fn := range p.funcsIn("") {
+		if recvTypeName(fn) != "requestStream" {
+			continue
+		}
+		n++
+		allCalls(fn, func(b *ssa.BasicBlock, c ssa.CallInstruction) {
+			if c.Common().IsInvoke() && c.Common().Method.Name() == "ContentLength" {
+				if _, fv := loadedField(c.Common().Value); fv != nil && fv.Name() == "header" {
+					bad++
+					if where == "" {
+						where, pos = funcName(fn), c.Pos()
+					}
+				}
+			}
+		})
+	}
+	r.Floor("R6", "methods of requestStream", n, 2)
+	r.Check("R6", "requestStream: the body is framed by the length recorded at creation, never by the live header", bad == 0, p.Pos(pos),
+		fmt.Sprintf("%d calls of header.ContentLength() in methods of requestStream (first in %s): a handler that changes Content-Length on the request before reading its body stream makes Read consume bytes of the next pipelined request, while fullyRead - which looks at the recorded length - still says the body was read to its end", bad, where))
+}
+
+// trailerErrorEndsTheBody (C02.R4c): the end-of-body flag of a chunked stream is raised only when the trailer reader
+// returned nil. From the branch that found its error non-nil no path reaches the store - an io.EOF in the middle of
+// the trailer section is not the end of a message, and what was read of the section is still in the reader.
+func trailerErrorEndsTheBody(p *Prog, r *Report) {
+	n := 0
+	for _, fn := range p.funcsIn("") {
+		if recvTypeName(fn) != "requestStream" {
+			continue
+		}
+		var trailerErr ssa.Value
+		allCalls(fn, func(b *ssa.BasicBlock, c ssa.CallInstruction) {
+			if c.Common().IsInvoke() && c.Common().Method.Name() == "ReadTrailer" {
+				if cv, ok := c.(*ssa.Call); ok {
+					trailerErr = cv
+				}
+			}
+		})
+		if trailerErr == nil {
+			continue
+		}
+		isRaise := func(i ssa.Instruction) bool {
+			st, ok := i.(*ssa.Store)
+			if !ok {
+				return false
+			}
+			_, fv := fieldOfAddr(st.Addr)
+			c, isC := st.Val.(*ssa.Const)
+			return fv != nil && fv.Name() == "chunkedEOF" && isC && c.Value != nil && c.Value.ExactString() == "true"
+		}
+		for _, b := range fn.Blocks {
+			iff, ok := b.Instrs[len(b.Instrs)-1].(*ssa.If)
+			if !ok {
+				continue
+			}
+			bo, ok := iff.Cond.(*ssa.BinOp)
+			if !ok || !(bo.X == trailerErr && isNilConst(bo.Y)) || (bo.Op != token.NEQ && bo.Op != token.EQL) {
+				continue
+			}
+			n++
+			nonNil := b.Succs[0]
+			if bo.Op == token.EQL {
+				nonNil = b.Succs[1]
+			}
+			hit, path := reachAvoiding(fn, nonNil.Instrs[0], isRaise, nil, nil)
+			if isRaise(nonNil.Instrs[0]) {
+				hit = nonNil.Instrs[0]
+			}
+			r.Check("R4", funcName(fn)+": the end-of-body flag is not raised on a path that found the trailer reader's error non-nil", hit == nil, p.Pos(iff.Pos()),
+				"from the branch 'ReadTrailer returned an error' the store chunkedEOF = true is reachable (an io.EOF is tolerated): a chunked body whose trailer section is cut off counts as read to its end, and the bytes of the unterminated section are parsed as the next request", blocksString(p, path)...)
+		}
+	}
+	r.Floor("R4", "tests of the trailer reader's error against nil in requestStream", n, 1)
+}
+
+// streamReleasedByItsOwner (C02.R-own): a requestStream read from the wire belongs to its Request (the serve loop
+// asks it whether the body was read and releases it). Code that meets such a stream through another door - a
+// response body that echoes it, the compressing wrapper - must leave it alone: every releaseRequestStream call whose
+// argument was type-asserted out of something other than a Request's own bodyStream field is made under a test
+// that found the stream's requestOwned flag false.
+func streamReleasedByItsOwner(p *Prog, r *Report) {
+	rel := p.Func("releaseRequestStream")
+	if rel == nil {
+		r.Undecided("R-own", "releaseRequestStream", "not found")
+		return
+	}
+	n, nforeign := 0, 0
+	for _, top := range p.funcsIn("") {
+		for _, fn := range funcAndClosures(top) {
+			for _, b := range fn.Blocks {
+				for _, in := range b.Instrs {
+					c, ok := in.(ssa.CallInstruction)
+					if !ok || c.Common().StaticCallee() != rel || len(c.Common().Args) != 1 {
+						continue
+					}
+					n++
+					// where does the stream come from?
+					own := false
+					v := c.Common().Args[0]
+					for d := 0; d < 6; d++ {
+						switch x := v.(type) {
+						case *ssa.Extract:
+							v = x.Tuple
+							continue
+						case *ssa.TypeAssert:
+							v = x.X
+							continue
+						case *ssa.Phi:
+							if len(x.Edges) > 0 {
+								v = x.Edges[0]
+								continue
+							}
+						case *ssa.UnOp:
+							if _, isFree := x.X.(*ssa.FreeVar); isFree && x.Op == token.MUL {
+								v = x.X
+								continue
+							}
+						}
+						break
+					}
+					if base, fv := loadedField(v); fv != nil && fv.Name() == "bodyStream" && base != nil && typeNameOf(base) == "Request" {
+						own = true
+					}
+					if _, isFree := v.(*ssa.FreeVar); isFree {
+						own = true // the client's response-stream callback releases the stream it created itself
+					}
+					if own {
+						continue
+					}
+					nforeign++
+					guarded := false
+					for _, g := range guardsOf(b) {
+						if strings.Contains(g.Atom, "requestOwned") && !g.Pol {
+							guarded = true
+						}
+					}
+					if !guarded {
+						// 'ok && !rs.requestOwned' compiles to a chain: look at the If that enters this block
+						for _, pr := range b.Preds {
+							if iff, isIf := pr.Instrs[len(pr.Instrs)-1].(*ssa.If); isIf {
+								pol, cv := stripNot(iff.Cond)
+								if _, fv := loadedField(cv); fv != nil && fv.Name() == "requestOwned" {
+									if (pr.Succs[0] == b) != pol {
+										guarded = true
+									}
+								}
+							}
+						}
+					}
+					r.Check("R-own", funcName(fn)+": a request stream met outside its Request is released only when it is not request-owned", guarded, p.Pos(c.Pos()),
+						"releaseRequestStream on a stream taken out of a response body / a wrapped reader without a test of requestOwned: when a handler echoes the request's body stream as the response body the stream goes back to its pool here and again in the serve loop - two connections then share one stream object and read each other's bodies")
+				}
+			}
+		}
+	}
+	r.Floor("R-own", "releaseRequestStream calls", n, 3)
+	r.Floor("R-own", "releases of a stream met outside its Request", nforeign, 1)
+}
+
+// orphanedReaderNotRecycled (C02.R7): when a handler timed out while it owned a streamed request body, it keeps
+// reading through the connection's buffered reader. The branch that finds this out ('timeoutResponse != nil' and the
+// look at the body stream taken before the handler ran) leaves the reader variable nil - some merge of the reader takes
+// the nil constant from it - so the 'if br != nil { releaseReader }' at the end cannot hand it to another connection.
+func orphanedReaderNotRecycled(p *Prog, r *Report) {
+	fn, hcall, header, why := findServeLoop(p)
+	rel := p.Func("releaseReader")
+	if fn == nil || rel == nil {
+		r.Undecided("R7", "serve loop / releaseReader", why)
+		return
+	}
+	const (
+		bTimeout uint64 = 1 << iota
+		bOrphan
+	)
+	isStreamOK := func(v ssa.Value) bool {
+		ex, ok := v.(*ssa.Extract)
+		if !ok || ex.Index != 1 {
+			return false
+		}
+		ta, ok := ex.Tuple.(*ssa.TypeAssert)
+		// the look at the request's body stream taken before the handler ran: afterwards the ctx may be another one
+		return ok && ta.CommaOk && strings.HasSuffix(ta.AssertedType.String(), "requestStream") && dominatesInstr(ta, hcall)
+	}
+	// the branch: an If on that look, control-dependent on 'timeoutResponse != nil'
+	n := 0
+	for _, b := range fn.Blocks {
+		iff, ok := b.Instrs[len(b.Instrs)-1].(*ssa.If)
+		if !ok || !inLoop(header, b) {
+			continue
+		}
+		pol, v := stripNot(iff.Cond)
+		if !isStreamOK(v) {
+			continue
+		}
+		underTimeout := false
+		for _, g := range guardsOf(b) {
+			if strings.Contains(g.Atom, "timeoutResponse") && g.Pol {
+				underTimeout = true
+			}
+		}
+		if !underTimeout {
+			continue
+		}
+		n++
+		then := b.Succs[0]
+		if !pol {
+			then = b.Succs[1]
+		}
+		// the reader variable is nil when the branch is left: a merge of the reader that takes nil from it
+		dropped := false
+		for _, bb := range fn.Blocks {
+			for _, in := range bb.Instrs {
+				ph, ok := in.(*ssa.Phi)
+				if !ok {
+					break
+				}
+				if !strings.HasSuffix(ph.Type().String(), "bufio.Reader") {
+					continue
+				}
+				for k, e := range ph.Edges {
+					pr := bb.Preds[k]
+					if (pr == then || then.Dominates(pr)) && isNilConst(e) {
+						dropped = true
+					}
+				}
+			}
+		}
+		r.Check("R7", "serve loop: the connection reader a timed out handler still reads its body through is dropped, not returned to the pool", dropped, p.Pos(iff.Pos()),
+			"the branch 'the handler timed out and the request body was a stream' leaves the reader variable as it was: the serve function releases it at its end, the pool hands it to another connection while the abandoned handler keeps reading through it - it consumes that connection's requests")
+	}
+	_ = rel
+	_ = bTimeout
+	_ = bOrphan
+	r.Floor("R7", "branches 'timed out with a streamed body' in the serve loop", n, 1)
+}
+
+// movedStreamMarkedUnread (C02.R8): a routine that moves the body of the caller's Request into a private copy
+// (swapRequestBody with its own Request parameter) takes a server request's body stream away from the server: the
+// serve loop then sees neither a stream nor how much of it was read. Such a routine records on the caller's request
+// that the body may be unread (a store to bodyStreamUnread of that parameter after the swap), so the connection is
+// not searched for a next request behind a body that the routine's goroutines may still be reading.
+func movedStreamMarkedUnread(p *Prog, r *Report) {
+	swap := p.Func("swapRequestBody")
+	if swap == nil {
+		r.Undecided("R8", "swapRequestBody", "not found")
+		return
+	}
+	n := 0
+	for _, fn := range p.funcsIn("") {
+		allCalls(fn, func(b *ssa.BasicBlock, c ssa.CallInstruction) {
+			if c.Common().StaticCallee() != swap || len(c.Common().Args) != 2 {
+				return
+			}
+			var prm *ssa.Parameter
+			for _, q := range fn.Params {
+				if c.Common().Args[0] == ssa.Value(q) {
+					prm = q
+				}
+			}
+			if prm == nil {
+				return
+			}
+			n++
+			marks := func(i ssa.Instruction) bool {
+				st, ok := i.(*ssa.Store)
+				if !ok {
+					return false
+				}
+				base, fv := fieldOfAddr(st.Addr)
+				return fv != nil && fv.Name() == "bodyStreamUnread" && base == ssa.Value(prm)
+			}
+			hit, _ := reachAvoiding(fn, c, marks, nil, nil)
+			r.Check("R8", funcName(fn)+": moving the caller's request body into a private copy records on the caller's request that a body stream may be unread", hit != nil, p.Pos(c.Pos()),
+				"after swapRequestBody(req, copy) nothing stores req.bodyStreamUnread: when req is a server request with a streamed body (proxying) the server no longer sees the stream, keeps the connection and parses the unread rest of the body as the next request")
+		})
+	}
+	r.Floor("R8", "routines that move their Request parameter's body into a copy", n, 1)
 }
